@@ -15,7 +15,7 @@ from ..common import Ctx
 LEVEL = "exploration"
 SHARDS = {"quick": 16, "thorough": 16}
 FLOOR = {"quick": 1500, "thorough": 50000}
-REQUIRED_COUNTERS = ["calls_made", "raised_checked", "status_4xx", "status_5xx", "status_3xx", "status_1xx",
+REQUIRED_COUNTERS = ["sibling_clients_generated", "calls_made", "raised_checked", "status_4xx", "status_5xx", "status_3xx", "status_1xx",
                      "bundled_transport_calls", "custom_transport_calls", "declared_status_calls", "undeclared_status_calls"]
 RULE = ("operations with various declared error sets (none, some 4xx/5xx, 3xx, default with/without content) x statuses (declared, "
         "boundary set, random; thorough: all of 100-199 and 300-599) x {bundled HttpxTransport, custom pass-through transport}; "
@@ -101,20 +101,43 @@ def run_doc(ctx: Ctx, it: dict) -> None:
     pkg = f"c{it['n']}"
     case_base = {"doc": d.doc, "sexp": d.sexp, "ops": d.ops, "features": sorted(d.features)}
     feats = sorted(d.features)
-    res = genrun.generate(d.doc, root, pkg, None, spec_path=genrun.write_spec(d.doc, root / f"spec{it['n']}"))
+    core = "sharedrt.core" if it.get("sibling") else None
+    res = genrun.generate(d.doc, root, pkg, core, spec_path=genrun.write_spec(d.doc, root / f"spec{it['n']}"))
     if not res.ok:
         rec.count("generations_rejected")
         return
     calls = make_calls(ctx, d)
-    job = {"root": str(root), "packages": [{"pkg": pkg, "core": pkg + ".core"}], "actions": ["calls"],
+    pkgs = [{"pkg": pkg, "core": core or pkg + ".core"}]
+    usable_before = None
+    if it.get("sibling"):
+        # the client under test shares its core with a sibling generated AFTER it, from a document that declares no error
+        # responses at all: the errors this client raises must still be the status-carrying classes
+        case_base["scenario"] = "sibling client without declared errors generated into the same core afterwards"
+        feats = feats + ["sibling_client_in_shared_core"]
+        pre = genrun.run_probe({"root": str(root), "packages": pkgs, "actions": ["calls"], "calls": [
+            {k: v for k, v in c.items() if not k.startswith("_")} for c in calls[:1]]}, root / "probe-before", timeout=300)
+        usable_before = "probe_error" not in pre and not pre["packages"][pkg]["calls"].get("errors")
+        sib = it.get("sibling_doc") or specgen.generate(ctx.rng, allow=set(), prof={"ops": (1, 2), "p_errors": 0.0, "p_3xx": 0.0, "p_stream": 0.0,
+                                                                                   "schemas": (1, 2), "p_union": 0.0, "p_self_ref": 0.0}).doc
+        for o in [op for item in sib["paths"].values() for op in item.values() if isinstance(op, dict) and "responses" in op]:
+            o["responses"] = {k: v for k, v in o["responses"].items() if k.startswith("2")} or {"204": {"description": "done"}}
+        case_base["sibling_doc"] = sib
+        r2 = genrun.generate(sib, root, f"sib{it['n']}", core, spec_path=genrun.write_spec(sib, root / f"sib{it['n']}"))
+        rec.count("sibling_clients_generated" if r2.ok else "sibling_generations_rejected")
+    job = {"root": str(root), "packages": pkgs, "actions": ["calls"],
            "calls": [{k: v for k, v in c.items() if not k.startswith("_")} for c in calls]}
     out = genrun.run_probe(job, root / "probe", timeout=900)
     if "probe_error" in out:
         rec.count("probe_failed_diagnostic")
+        if usable_before:
+            rec.violation("shared_core:client_unusable_after_sibling_generation:probe", feats, case_base, out["probe_error"][-300:])
         return
     po = out["packages"][pkg]["calls"]
     if po.get("errors"):
         rec.count("client_construct_errors_diagnostic")
+        if usable_before:
+            e0 = po["errors"][0]
+            rec.violation(f"shared_core:client_unusable_after_sibling_generation:{e0.get('type')}", feats, case_base, json.dumps(e0)[:300])
         return
     for c in calls:
         r = po["results"].get(c["id"])
@@ -133,11 +156,11 @@ def run_shard(ctx: Ctx) -> None:
         trig: set[str] = set()
         if ctx.rng.random() < 0.2:
             trig = {"default_with_content"}
-        run_doc(ctx, {"doc": mk_doc(ctx, trig), "n": ctx.shard * 100000 + b, "trigger": trig})
+        run_doc(ctx, {"doc": mk_doc(ctx, trig), "n": ctx.shard * 100000 + b, "trigger": trig, "sibling": b % 5 == 1})
 
 
 def replay(ctx: Ctx, file: dict) -> None:
     common.use_repo()
     c = file["case"]
     d = specgen.Doc(c["doc"], c["sexp"], c["ops"], set(c["features"]))
-    run_doc(ctx, {"doc": d, "n": 1, "trigger": set()})
+    run_doc(ctx, {"doc": d, "n": 1, "trigger": set(), "sibling": bool(c.get("sibling_doc")), "sibling_doc": c.get("sibling_doc")})
